@@ -1,6 +1,7 @@
 package csim
 
 import (
+	"github.com/dappledger/AnnChain/gemmill/go-wire"
 	"fmt"
 	"os"
 	"strconv"
@@ -73,6 +74,19 @@ func TestDebug(t *testing.T) {
 	}
 	for _, v := range w.Violations {
 		fmt.Printf("VIOLATION %+v\n", v)
+	}
+	if hs := os.Getenv("VERIF_DUMPBLOCK"); hs != "" {
+		h, _ := strconv.ParseInt(hs, 10, 64)
+		for _, nd := range w.nodes {
+			if nd == nil {
+				continue
+			}
+			st := w.DiskStore(nd)
+			if b := st.LoadBlock(h); b != nil {
+				m := st.LoadBlockMeta(h)
+				fmt.Printf("n%d block %d: %d bytes, %d txs, meta parts %v, part0 %d bytes\n", nd.id, h, len(wire.BinaryBytes(b)), len(b.Data.Txs), m.PartsHeader, len(st.LoadBlockPart(h, 0).Bytes))
+			}
+		}
 	}
 }
 
